@@ -2,8 +2,25 @@ I = "indices.py"
 E = "expr_container.py"
 G = "groundstate.py"
 T = "tensor_names.py"
+S = "intermediate_states.py"
+F = "factor_intermediates.py"
+O = "generate_code/optimize_contractions.py"
+D = "derivative.py"
+SP = "spatial_orbitals.py"
+M = "misc.py"
+
+_NORM_OLD = ("                i1 = pref\n                for o in term:\n                    i1 *= self.overlap(o)\n"
+             "                    if i1 is S.Zero:\n                        break\n                norm_factor += i1.expand()")
+_SROOT_OLD = ("                for o in term:\n                    i1 *= self.overlap_precursor(\n"
+              "                        order=o, block=block, indices=tuple(relevant_idx[:2])\n                    )\n"
+              "                    del relevant_idx[0]\n                    if i1 is S.Zero:\n                        break\n"
+              "                assert len(relevant_idx) == 1 and relevant_idx[0] == indices[1]")
+_GETIDX_OLD = ("            symbol = self._symbols[space][spin].get(idx, None)\n            if symbol is not None:\n"
+               "                ret[key].append(symbol)\n                continue\n")
+
 WITNESSES = [
-    dict(id="c19-f8-revert", prop="C19", file=I, expect="R19a",
+    # ------------------------------------------------------------------ breaking (from the text-rule era)
+    dict(id="c19-f8-revert", prop="C19", file=I, expect=["R19a", "R19g"],
          old="                idx.dummy_index)", new="                hash(idx))"),
     dict(id="c19-atoms-contracted", prop="C19", file=E, expect="R19a",
          old="        contracted = {}\n        for s in self.contracted:\n            if (key := s.space_and_spin) not in contracted:",
@@ -34,4 +51,242 @@ WITNESSES = [
     dict(id="c19-ok-sorted-atoms", prop="C19", file=E, expect=None,
          old="        idx = [s for t in self.terms for s in t.idx]\n        return tuple(sorted(idx, key=sort_idx_canonical))\n\n    def copy(self):",
          new="        idx = [s for t in self.terms for s in t.idx]\n        assert all(s in self.sympy.atoms(Index) for s in set(idx))\n        return tuple(sorted(idx, key=sort_idx_canonical))\n\n    def copy(self):"),
+
+    # ------------------------------------------------------------------ breaking: the re-founded / new checks
+    # R19a(1): the hash hides in a helper that the key function calls
+    dict(id="c19-hash-in-helper", prop="C19", file=I, expect="R19a",
+         edits=[("                idx.dummy_index)", "                _tie_break(idx))"),
+                ("def split_idx_string(str_tosplit: str) -> list[str]:",
+                 "def _tie_break(idx):\n    return hash(idx) % 1024\n\n\ndef split_idx_string(str_tosplit: str) -> list[str]:")]),
+    # R19a(1): key bound to a local name first
+    dict(id="c19-id-key-local", prop="C19", file=E, expect="R19a",
+         old="        return tuple(sorted(idx.items(),\n                            key=lambda tpl: sort_idx_canonical(tpl[0])))",
+         new="        by_address = lambda tpl: id(tpl[0])  # noqa: E731\n        return tuple(sorted(idx.items(), key=by_address))"),
+    # R19g: letter before number
+    dict(id="c19-key-letter-first", prop="C19", file=I, expect="R19g",
+         old="                int(idx.name[1:]) if idx.name[1:] else 0,\n                idx.name[0],",
+         new="                idx.name[0],\n                int(idx.name[1:]) if idx.name[1:] else 0,"),
+    # R19a(2): list(set) without a loop or comprehension
+    dict(id="c19-list-of-set", prop="C19", file=E, expect="R19a",
+         old="        idx = [s for t in self.terms for s in t.idx]\n        return tuple(sorted(idx, key=sort_idx_canonical))\n\n    def copy(self):",
+         new="        return tuple({s for t in self.terms for s in t.idx})\n\n    def copy(self):"),
+    # R19a(2): element picked from a set that is not known to be a singleton
+    dict(id="c19-pop-unguarded", prop="C19", file=E, expect="R19a",
+         old="        remaining_idx = result.atoms(Index)\n        assert len(remaining_idx) == 1  # only one of the indices can survive\n",
+         new="        remaining_idx = result.atoms(Index)\n"),
+    # R19a(2): order of a set frozen into a dict and read back in order
+    dict(id="c19-dict-from-set", prop="C19", file=E, expect="R19a",
+         old="        idx = [s for t in self.terms for s in t.idx]\n        return tuple(sorted(idx, key=sort_idx_canonical))\n\n    def copy(self):",
+         new="        seen = {}\n        for s in self.sympy.atoms(Index):\n            seen[s] = None\n        return tuple(seen.keys())\n\n    def copy(self):"),
+    # R19b: memoised overlaps (the same object twice in S(2)*S(2))
+    dict(id="c19-overlap-memo", prop="C19", file=G, expect="R19b",
+         old=_NORM_OLD,
+         new="                i1 = pref\n                seen = {}\n                for o in term:\n                    if o not in seen:\n"
+             "                        seen[o] = self.overlap(o)\n                    i1 *= seen[o]\n                    if i1 is S.Zero:\n"
+             "                        break\n                norm_factor += i1.expand()"),
+    # R19b: power instead of repeated requests
+    dict(id="c19-overlap-power", prop="C19", file=G, expect="R19b",
+         old=_NORM_OLD,
+         new="                i1 = pref\n                for o in set(term):\n                    i1 *= self.overlap(o) ** term.count(o)\n"
+             "                    if i1 is S.Zero:\n                        break\n                norm_factor += i1.expand()"),
+    # R19b: s_root multiplies the cached overlap with the same index pair every time
+    dict(id="c19-sroot-same-indices", prop="C19", file=S, expect="R19b",
+         old="                        order=o, block=block, indices=tuple(relevant_idx[:2])\n                    )\n                    del relevant_idx[0]",
+         new="                        order=o, block=block, indices=tuple(indices)\n                    )\n                    del relevant_idx[0]"),
+    # R19b: a cached method names its summation indices literally
+    dict(id="c19-isr-literal-sum", prop="C19", file=S, expect="R19b",
+         old="        idx_pre = \"\".join(s.name for s in generic_indices_from_space(space))",
+         new="        idx_pre = \"\".join(s.name for s in get_symbols('ijab'[:len(space)]))\n",
+         ),
+    # R19c: the literal travels through a local name
+    dict(id="c19-literal-via-local", prop="C19", file=E, expect="R19c",
+         old="        diag = Pow(\n            NonSymmetricTensor(tensor_names.orb_energy, (remaining_idx,)),",
+         new="        e_name = 'e'\n        diag = Pow(\n            NonSymmetricTensor(e_name, (remaining_idx,)),"),
+    # R19c: default name with a computed extension
+    dict(id="c19-literal-fstring", prop="C19", file=G, expect="R19c",
+         old="        tensor_name = f\"{tensor_names.gs_amplitude}{order}\"", new="        tensor_name = f\"t{order}\""),
+    # R19c: membership in a display of literals
+    dict(id="c19-literal-member", prop="C19", file=E, expect="R19c",
+         old="            if name in [tensor_names.eri, tensor_names.coulomb]:", new="            if name in ['V', tensor_names.coulomb]:"),
+    # R19c: literal handed to a tensor-name parameter
+    dict(id="c19-literal-argument", prop="C19", file=E, expect="R19c",
+         old="        return False if name is None else is_t_amplitude(name)", new="        return False if name is None else (is_t_amplitude(name) or is_adc_amplitude('Y'))",
+         ),
+    # R19c: registry looked up with the configured long name (keyword spelling)
+    dict(id="c19-lookup-configured", prop="C19", file=E, expect="R19c",
+         old="        itmd = Intermediates().available.get(self.longname(True), None)\n        if itmd is None:\n            logger.warning(",
+         new="        itmd = Intermediates().available.get(self.longname(use_default_names=False), None)\n        if itmd is None:\n            logger.warning("),
+    # R19d: configuration ignored
+    dict(id="c19-config-ignored", prop="C19", file=T, expect="R19d",
+         old="        return TensorNames(**tensor_names)", new="        return TensorNames()"),
+    # R19d: store through an alias
+    dict(id="c19-store-alias", prop="C19", file=G, expect="R19d",
+         old="        self.singles = first_order_singles", new="        self.singles = first_order_singles\n        object.__setattr__(tensor_names, 'gs_amplitude', 't')"),
+    # R19d: defaults() keyed by the default instead of the field name
+    dict(id="c19-defaults-wrong", prop="C19", file=T, expect="R19d",
+         old="        return {field.name: field.default for field in fields(TensorNames)}", new="        return {field.default: field.name for field in fields(TensorNames)}"),
+    # R19e: a freshly created name stays in the pool of available generic names
+    dict(id="c19-pool-not-updated", prop="C19", file=I, expect=["R19e", "R08d"],
+         old="            try:\n                self._generic_indices[space][spin].remove(idx)\n            except ValueError:\n                continue\n",
+         new=""),
+    # R19e: the used-name filter of a new generation is dropped
+    dict(id="c19-generation-unfiltered", prop="C19", file=I, expect=["R19e", "R08d"],
+         old="        new_idx = [idx + counter for idx in self.base[space]\n                   if idx + counter not in used_names]",
+         new="        new_idx = [idx + counter for idx in self.base[space]]"),
+    # R19f: the cached symmetry dict is extended in place
+    dict(id="c19-cached-mutated", prop="C19", file=D, expect="R19f",
+         old="            tensor_sym = obj.symmetry()\n", new="            tensor_sym = obj.symmetry()\n            tensor_sym[tuple()] = 1\n"),
+    # R19f: ... through an alias and a mutator method
+    dict(id="c19-cached-mutated-alias", prop="C19", file=D, expect="R19f",
+         old="            tensor_sym = obj.symmetry()\n", new="            cached = obj.symmetry()\n            tensor_sym = cached\n            tensor_sym.pop(tuple(), None)\n"),
+    # R19f/R19b: a cached derivation method hands out a mutable container
+    dict(id="c19-cached-container", prop="C19", file=S, expect="R19f",
+         old="        name = getattr(tensor_names, f\"{lr}_adc_amplitude\")\n        return Amplitude(name, virt, occ)",
+         new="        name = getattr(tensor_names, f\"{lr}_adc_amplitude\")\n        return Expr(Amplitude(name, virt, occ))"),
+
+    # ------------------------------------------------------------------ behaviour preserving refactorings (new kinds)
+    # key function reached through a local alias and a wrapping lambda
+    dict(id="c19-ok-key-alias", prop="C19", file=E, expect=None,
+         old="        idx = [s for t in self.terms for s in t.idx]\n        return tuple(sorted(idx, key=sort_idx_canonical))\n\n    def copy(self):",
+         new="        canonical = sort_idx_canonical\n        idx = [s for t in self.terms for s in t.idx]\n        return tuple(sorted(idx, key=lambda s: canonical(s)))\n\n    def copy(self):"),
+    # number of the name parsed by an extracted helper, branches of the key swapped
+    dict(id="c19-ok-key-helper", prop="C19", file=I, expect=None,
+         edits=[("    if isinstance(idx, Index):\n        # also add the hash here for wicks, where multiple i are around\n        return (idx.space[0],\n"
+                 "                idx.spin,\n                int(idx.name[1:]) if idx.name[1:] else 0,\n                idx.name[0],\n"
+                 "                idx.dummy_index)\n    else:  # necessary for subs to work correctly with simultaneous=True\n"
+                 "        return ('', 0, str(idx), getattr(idx, \"dummy_index\", 0))",
+                 "    if not isinstance(idx, Index):  # necessary for subs to work correctly with simultaneous=True\n"
+                 "        return ('', 0, str(idx), getattr(idx, \"dummy_index\", 0))\n"
+                 "    letter, number = _letter_and_number(idx.name)\n    space_and_spin = (idx.space[0], idx.spin)\n"
+                 "    return (*space_and_spin, number, letter, idx.dummy_index)"),
+                ("def split_idx_string(str_tosplit: str) -> list[str]:",
+                 "def _letter_and_number(name: str):\n    digits = name[1:]\n    return name[0], int(digits or 0)\n\n\n"
+                 "def split_idx_string(str_tosplit: str) -> list[str]:")]),
+    # comprehension over a set -> explicit loop with append; the derived tuple is still only scanned
+    dict(id="c19-ok-set-loop", prop="C19", file=F, expect=None,
+         old="    itmd_contracted_symbols = tuple(s for s in set(itmd.expr.idx)\n                                    if s not in itmd_default_symbols)",
+         new="    contracted_symbols = []\n    for symbol in set(itmd.expr.idx):\n        if symbol not in itmd_default_symbols:\n"
+             "            contracted_symbols.append(symbol)\n    itmd_contracted_symbols = tuple(contracted_symbols)"),
+    # the triaged sets get other local names / a temporary
+    dict(id="c19-ok-rename-triaged", prop="C19", file=SP, expect=None,
+         edits=[("        idx = set(term.idx)\n        beta_idx = [i for i in idx if i.spin == \"b\"]", "        all_indices = term.idx\n        index_set = set(all_indices)\n        beta_idx = [i for i in index_set if i.spin == \"b\"]"),
+                ("            if new in idx:\n", "            if new in index_set:\n")]),
+    dict(id="c19-ok-atoms-temp", prop="C19", file=T, expect=None,
+         old="            if field.name == \"gs_amplitude\":  # special case for t_amplitudes\n                subs = []\n                for sym in expr.sympy.atoms(Symbol):",
+         new="            if field.name == \"gs_amplitude\":  # special case for t_amplitudes\n                subs = []\n                symbols = expr.sympy.atoms(Symbol)\n                for sym in symbols:"),
+    # the singleton guard spelled the other way round, element taken by unpacking
+    dict(id="c19-ok-singleton-unpack", prop="C19", file=E, expect=None,
+         old="        assert len(remaining_idx) == 1  # only one of the indices can survive\n        remaining_idx = remaining_idx.pop()",
+         new="        assert not 1 != len(remaining_idx)  # only one of the indices can survive\n        (remaining_idx,) = remaining_idx"),
+    # overlaps of one Taylor term requested up front, product built afterwards
+    dict(id="c19-ok-norm-factors-first", prop="C19", file=G, expect=None,
+         old=_NORM_OLD,
+         new="                factors = [self.overlap(order=o) for o in term]\n                i1 = pref\n                for factor in factors:\n"
+             "                    i1 = i1 * factor\n                    if i1 is S.Zero:\n                        break\n                norm_factor += i1.expand()"),
+    # s_root walks the index chain by position instead of consuming a list
+    dict(id="c19-ok-sroot-by-position", prop="C19", file=S, expect=None,
+         old=_SROOT_OLD,
+         new="                for pos, o in enumerate(term):\n                    pair = (relevant_idx[pos], relevant_idx[pos + 1])\n"
+             "                    i1 *= self.overlap_precursor(o, block, pair)\n                    if i1 is S.Zero:\n                        break\n"
+             "                assert relevant_idx[-1] == indices[1]"),
+    # psi: request built as a dict, halves hoisted
+    dict(id="c19-ok-psi-kwargs", prop="C19", file=G, expect=None,
+         old="        idx = self.indices.get_generic_indices(occ=2*order, virt=2*order)",
+         new="        n_idx = 2 * order\n        request = {\"occ\": n_idx, \"virt\": n_idx}\n        idx = self.indices.get_generic_indices(**request)"),
+    # tensor names: keyword spelling, flipped comparison, tuple instead of list, key via temporary
+    dict(id="c19-ok-name-spelling", prop="C19", file=E, expect=None,
+         edits=[("            NonSymmetricTensor(tensor_names.orb_energy, (remaining_idx,)),", "            NonSymmetricTensor(name=tensor_names.orb_energy, indices=(remaining_idx,)),"),
+                ("        if self.name == tensor_names.fock:\n            space = self.space", "        fock_name = tensor_names.fock\n        if fock_name == self.name:\n            space = self.space"),
+                ("            if name in [tensor_names.eri, tensor_names.coulomb]:", "            if name in (tensor_names.eri, tensor_names.coulomb):"),
+                ("        itmd = Intermediates().available.get(self.longname(True), None)\n        if itmd is None:\n            logger.warning(",
+                 "        default_name = self.longname(use_default_names=True)\n        registry = Intermediates().available\n        itmd = registry.get(default_name)\n        if itmd is None:\n            logger.warning(")]),
+    # TensorNames: decorator options reordered, config read in a with block, defaults by loop
+    dict(id="c19-ok-tensor-names-layout", prop="C19", file=T, expect=None,
+         edits=[("@dataclass(slots=True, frozen=True)", "@dataclass(frozen=True, slots=True)"),
+                ("        tensor_names: dict[str, str] = json.load(open(config_file, \"r\"))\n        return TensorNames(**tensor_names)",
+                 "        with open(config_file, \"r\") as handle:\n            configured = json.load(handle)\n        return TensorNames(**configured)"),
+                ("        return {field.name: field.default for field in fields(TensorNames)}",
+                 "        table = {}\n        for f in fields(TensorNames):\n            table[f.name] = f.default\n        return table")]),
+    # cached value reached through two names, only read; a private copy is modified
+    dict(id="c19-ok-cached-alias-read", prop="C19", file=D, expect=None,
+         old="            tensor_sym = obj.symmetry()\n",
+         new="            cached_sym = obj.symmetry()\n            tensor_sym = cached_sym\n            scratch = dict(cached_sym)\n            scratch.clear()\n"),
+    # any() over a set written as a flag loop with break
+    dict(id="c19-ok-any-as-flag-loop", prop="C19", file=SP, expect=None,
+         old="        if any(s.spin for s in term_indices):\n            raise ValueError(\"The function assumes",
+         new="        has_spin = False\n        for s in term_indices:\n            if s.spin:\n                has_spin = True\n"
+             "                break\n        if has_spin:\n            raise ValueError(\"The function assumes"),
+    # the index strings of the overlap root selected by a conditional expression instead of a table
+    dict(id="c19-ok-isr-cond-expr", prop="C19", file=S, expect=None,
+         edits=[("        s_indices = {\n            'bra': \",\".join([indices, idx_pre]),\n            'ket': \",\".join([idx_pre, indices])\n        }\n", ""),
+                ("                              indices=s_indices[braket]) *",
+                 "                              indices=(f\"{indices},{idx_pre}\" if braket == 'bra' else f\"{idx_pre},{indices}\")) *")]),
+    # the config loader as a module-level helper
+    dict(id="c19-ok-config-helper", prop="C19", file=T, expect=None,
+         edits=[("tensor_names = TensorNames._from_config()", "def _load_configured_names() -> TensorNames:\n    return TensorNames._from_config()\n\n\ntensor_names = _load_configured_names()")]),
+    # De Morgan on a name test
+    dict(id="c19-ok-name-demorgan", prop="C19", file=E, expect=None,
+         old="        if self.name != tensor_names.fock:  # no fock matrix\n            return pack_result(self.sympy, {}, target)\n        p, q = self.idx\n        # build a delta",
+         new="        if not (self.name == tensor_names.fock):  # no fock matrix\n            return pack_result(self.sympy, {}, target)\n        p, q = self.idx\n        # build a delta"),
+    # R19i: one cache for all methods of an instance (keyed by the arguments only)
+    dict(id="c19-cache-shared-by-methods", prop="C19", file=M, expect="R19i",
+         old="        try:  # load/create the cache\n            fun_cache = self._function_cache[fname]\n        except AttributeError:\n"
+             "            self._function_cache = {}\n            fun_cache = self._function_cache[fname] = {}\n        except KeyError:\n"
+             "            fun_cache = self._function_cache[fname] = {}\n",
+         new="        try:  # load/create the cache\n            fun_cache = self._function_cache\n        except AttributeError:\n"
+             "            fun_cache = self._function_cache = {}\n"),
+    # R19i: the cache lives on the decorator (shared by all instances)
+    dict(id="c19-cache-shared-by-instances", prop="C19", file=M, expect="R19i",
+         edits=[("    fname = function.__name__\n", "    fname = function.__name__\n    shared_cache = {}\n"),
+                ("        try:  # try to load the data from the cache\n            return fun_cache[args]\n        except KeyError:\n"
+                 "            fun_cache[args] = result = function(self, *args)\n        return result",
+                 "        try:  # try to load the data from the cache\n            return shared_cache[args]\n        except KeyError:\n"
+                 "            shared_cache[args] = result = function(self, *args)\n        return result")]),
+    # R19i: only the first argument addresses the entry
+    dict(id="c19-cache-key-truncated", prop="C19", file=M, expect="R19i",
+         old="            return fun_cache[args]\n        except KeyError:\n            fun_cache[args] = result = function(self, *args)",
+         new="            return fun_cache[args[:1]]\n        except KeyError:\n            fun_cache[args[:1]] = result = function(self, *args)"),
+    # R19i: cached_property keyed by nothing
+    dict(id="c19-property-cache-flat", prop="C19", file=M, expect="R19i",
+         old="        try:\n            return self._property_cache[function]\n        except AttributeError:\n            self._property_cache = {}\n"
+             "            x = self._property_cache[function] = function(self)\n            return x\n        except KeyError:\n"
+             "            x = self._property_cache[function] = function(self)\n            return x",
+         new="        try:\n            return self._property_cache\n        except AttributeError:\n"
+             "            x = self._property_cache = function(self)\n            return x"),
+    # the caches rewritten with get/setdefault and membership tests instead of exceptions
+    dict(id="c19-ok-cache-without-exceptions", prop="C19", file=M, expect=None,
+         edits=[("        try:  # load/create the cache\n            fun_cache = self._function_cache[fname]\n        except AttributeError:\n"
+                 "            self._function_cache = {}\n            fun_cache = self._function_cache[fname] = {}\n        except KeyError:\n"
+                 "            fun_cache = self._function_cache[fname] = {}\n\n"
+                 "        try:  # try to load the data from the cache\n            return fun_cache[args]\n        except KeyError:\n"
+                 "            fun_cache[args] = result = function(self, *args)\n        return result",
+                 "        if not hasattr(self, \"_function_cache\"):\n            self._function_cache = {}\n"
+                 "        per_method = self._function_cache.setdefault(fname, {})\n        if args not in per_method:\n"
+                 "            per_method[args] = function(self, *args)\n        return per_method[args]")]),
+    # registry: look-up through a temporary and a membership test, pool update by a guarded remove
+    dict(id="c19-ok-registry-lookup", prop="C19", file=I, expect=None,
+         edits=[("            symbol = self._symbols[space][spin].get(idx, None)\n            if symbol is not None:\n"
+                 "                ret[key].append(symbol)\n                continue\n",
+                 "            known = self._symbols[space][spin]\n            if idx in known:\n"
+                 "                ret[key].append(known[idx])\n                continue\n"),
+                ("            try:\n                self._generic_indices[space][spin].remove(idx)\n            except ValueError:\n                continue\n",
+                 "            pool = self._generic_indices[space][spin]\n            if idx in pool:\n                pool.remove(idx)\n")]),
+    # R19j: revert of 5192557 (renames applied one after another to the already renamed expression)
+    dict(id="c19-rename-simultaneous-revert", prop="C19", file=T, expect="R19j",
+         edits=[("            all_subs.extend(subs)\n", "            for old, new in subs:\n                expr.rename_tensor(old, new)\n"),
+                ("        for i, (old, _) in enumerate(all_subs):\n            expr.rename_tensor(old, f\"_tmp_name_{i}_\")\n"
+                 "        for i, (_, new) in enumerate(all_subs):\n            expr.rename_tensor(f\"_tmp_name_{i}_\", new)\n", "")]),
+    # R19j: the temporary names are resolved before all old names are parked
+    dict(id="c19-rename-interleaved", prop="C19", file=T, expect="R19j",
+         old="        for i, (old, _) in enumerate(all_subs):\n            expr.rename_tensor(old, f\"_tmp_name_{i}_\")\n"
+             "        for i, (_, new) in enumerate(all_subs):\n            expr.rename_tensor(f\"_tmp_name_{i}_\", new)\n",
+         new="        for i, (old, new) in enumerate(all_subs):\n            expr.rename_tensor(old, f\"_tmp_name_{i}_\")\n"
+             "            expr.rename_tensor(f\"_tmp_name_{i}_\", new)\n"),
+    # the two passes written with zip and a list of temporaries
+    dict(id="c19-ok-rename-two-pass-zip", prop="C19", file=T, expect=None,
+         old="        for i, (old, _) in enumerate(all_subs):\n            expr.rename_tensor(old, f\"_tmp_name_{i}_\")\n"
+             "        for i, (_, new) in enumerate(all_subs):\n            expr.rename_tensor(f\"_tmp_name_{i}_\", new)\n",
+         new="        parked = [f\"_tmp_name_{i}_\" for i in range(len(all_subs))]\n"
+             "        for (old, _), tmp in zip(all_subs, parked):\n            expr.rename_tensor(current=old, new=tmp)\n"
+             "        for (_, configured), tmp in zip(all_subs, parked):\n            expr.rename_tensor(tmp, configured)\n"),
 ]
